@@ -210,6 +210,30 @@ Proof.
   rewrite s32_id by (unfold in_s32, M32; nia). lia.
 Qed.
 
+(* the guard of sc_MPI_Pack_size (`incount > 0 && *size > INT_MAX / incount`) is exact: it fires iff count * size >= 2^31 *)
+Lemma pack_size_exact incount t : valid_dt t -> 0 <= incount < 2 ^ 31 ->
+  (incount * type_size t < 2 ^ 31 -> pack_size_code incount t = SUCCESS /\ pack_size_value incount t = incount * type_size t) /\
+  (2 ^ 31 <= incount * type_size t -> pack_size_code incount t = ERR_NO_SPACE /\ pack_size_value incount t = type_size t).
+Proof.
+  intros Hv Hc. pose proof (dt_bounds t Hv) as (Hb1 & Hb2). change (2 ^ 31) with 2147483648 in *.
+  unfold pack_size_code, pack_size_value. rewrite (sizeof_abi t Hv).
+  rewrite (s32_id (type_size t)) by (unfold in_s32, M32; lia).
+  assert (Hr : pack_size_refuses incount (type_size t) = (2147483648 <=? incount * type_size t)).
+  { unfold pack_size_refuses. destruct (Z.ltb_spec 0 incount) as [Hpos|Hz].
+    - unfold cdiv. rewrite Z.quot_div_nonneg by lia. cbn [andb].
+      assert (Hq : 0 <= 2147483647 / incount <= 2147483647) by (split; [apply Z.div_pos; lia|apply Z.div_le_upper_bound; nia]).
+      rewrite s32_id by (unfold in_s32, M32; lia).
+      destruct (Z.ltb_spec (2147483647 / incount) (type_size t)) as [H|H]; destruct (Z.leb_spec 2147483648 (incount * type_size t)) as [H'|H'];
+        try reflexivity; exfalso.
+      + assert (type_size t <= 2147483647 / incount) by (apply Z.div_le_lower_bound; lia). lia.
+      + assert (incount * (2147483647 / incount) <= 2147483647) by (apply Z.mul_div_le; lia). nia.
+    - assert (incount = 0) by lia. subst. cbn [andb]. symmetry. apply Z.leb_gt. lia. }
+  rewrite Hr. split; intros H.
+  - replace (2147483648 <=? incount * type_size t) with false by (symmetry; apply Z.leb_gt; lia).
+    split; [reflexivity|]. apply pack_bytes_small; try assumption; try lia; change (2 ^ 31) with 2147483648; lia.
+  - replace (2147483648 <=? incount * type_size t) with true by (symmetry; apply Z.leb_le; lia). split; reflexivity.
+Qed.
+
 (* the space test `size > limit - position` and the advance in `int` arithmetic: exact for EVERY position, size and limit in
    [0, 2^31) (the difference cannot wrap; a position behind the limit is refused) *)
 Lemma pack_arith pos size lim : 0 <= pos < 2 ^ 31 -> 0 <= size < 2 ^ 31 -> 0 <= lim < 2 ^ 31 ->
@@ -223,17 +247,21 @@ Proof.
 Qed.
 
 Theorem pack_spec inbuf incount t outbuf outsize pos :
-  valid_dt t -> 0 <= incount -> contiguous_ok t incount 0 ->
+  valid_dt t -> 0 <= incount < 2 ^ 31 -> contiguous_ok t incount 0 ->
   incount * extent t <= len inbuf -> len outbuf = outsize -> 0 <= pos < 2 ^ 31 -> outsize < 2 ^ 31 ->
-  incount * type_size t < 2 ^ 31 ->
   let '(rc, out', pos') := sc_pack inbuf incount t outbuf outsize pos in
   (rc = SUCCESS <-> pos + incount * type_size t <= outsize) /\
   (rc <> SUCCESS -> out' = Some outbuf /\ pos' = pos) /\
   (rc = SUCCESS -> exists o, out' = Some o /\ pack_ok t incount inbuf outbuf pos o pos').
 Proof.
-  intros Hv Hc Hk Hin Hout Hp Hos Hsm. unfold contiguous_ok in Hk. unfold sc_pack, pack_copy.
+  intros Hv Hc Hk Hin Hout Hp Hos. unfold contiguous_ok in Hk. unfold sc_pack, pack_copy.
   pose proof (dt_bounds t Hv) as (Hb1 & Hb2). pose proof (len_nonneg outbuf) as Hob.
-  rewrite (pack_bytes_small incount t Hv Hc Hsm).
+  destruct (pack_size_exact incount t Hv Hc) as (Hrep & Hnot).
+  destruct (Z_lt_ge_dec (incount * type_size t) (2 ^ 31)) as [Hsm|Hbig];
+    [destruct (Hrep Hsm) as (-> & ->)|destruct (Hnot ltac:(lia)) as (-> & ->)]; cbn [Z.eqb negb];
+    [|change (ERR_NO_SPACE =? SUCCESS) with false; cbn [negb];
+      split; [split; [discriminate|intros; lia]|]; split; [auto|]; intros H; discriminate H].
+  change (SUCCESS =? SUCCESS) with true. cbn [negb].
   destruct (pack_arith pos (incount * type_size t) outsize Hp ltac:(nia) ltac:(lia)) as (-> & -> & Hadv).
   set (sz := type_size t) in *. set (ex := extent t) in *.
   destruct (pos + incount * sz >? outsize) eqn:E.
@@ -254,17 +282,21 @@ Proof.
 Qed.
 
 Theorem unpack_spec inbuf insize pos outbuf outcount t :
-  valid_dt t -> 0 <= outcount -> contiguous_ok t outcount 0 ->
+  valid_dt t -> 0 <= outcount < 2 ^ 31 -> contiguous_ok t outcount 0 ->
   len inbuf = insize -> outcount * extent t <= len outbuf -> 0 <= pos < 2 ^ 31 -> insize < 2 ^ 31 ->
-  outcount * type_size t < 2 ^ 31 ->
   let '(rc, out', pos') := sc_unpack inbuf insize pos outbuf outcount t in
   (rc = SUCCESS <-> pos + outcount * type_size t <= insize) /\
   (rc <> SUCCESS -> out' = Some outbuf /\ pos' = pos) /\
   (rc = SUCCESS -> exists o, out' = Some o /\ unpack_ok t outcount inbuf pos outbuf o pos').
 Proof.
-  intros Hv Hc Hk Hin Hout Hp Hos Hsm. unfold contiguous_ok in Hk. unfold sc_unpack, unpack_copy.
+  intros Hv Hc Hk Hin Hout Hp Hos. unfold contiguous_ok in Hk. unfold sc_unpack, unpack_copy.
   pose proof (dt_bounds t Hv) as (Hb1 & Hb2). pose proof (len_nonneg inbuf) as Hib.
-  rewrite (pack_bytes_small outcount t Hv Hc Hsm).
+  destruct (pack_size_exact outcount t Hv Hc) as (Hrep & Hnot).
+  destruct (Z_lt_ge_dec (outcount * type_size t) (2 ^ 31)) as [Hsm|Hbig];
+    [destruct (Hrep Hsm) as (-> & ->)|destruct (Hnot ltac:(lia)) as (-> & ->)]; cbn [Z.eqb negb];
+    [|change (ERR_NO_SPACE =? SUCCESS) with false; cbn [negb];
+      split; [split; [discriminate|intros; lia]|]; split; [auto|]; intros H; discriminate H].
+  change (SUCCESS =? SUCCESS) with true. cbn [negb].
   destruct (pack_arith pos (outcount * type_size t) insize Hp ltac:(nia) ltac:(lia)) as (-> & -> & Hadv).
   set (sz := type_size t) in *. set (ex := extent t) in *.
   destruct (pos + outcount * sz >? insize) eqn:E.
@@ -287,16 +319,18 @@ Qed.
 
 (* ---- codes without buffers; the space test overflows (F-C16c) ---- *)
 Lemma pack_codes_spec inbuf incount t outbuf outsize pos :
-  len outbuf = outsize -> u64 (pack_bytes incount t) <= len inbuf ->
+  len outbuf = outsize -> u64 (pack_size_value incount t) <= len inbuf ->
   let '(rc, out', pos') := sc_pack inbuf incount t outbuf outsize pos in
   let '(rc2, pos2, over) := sc_pack_codes incount t outsize pos in
   rc = rc2 /\ pos' = pos2 /\ (over = true <-> out' = None).
 Proof.
-  intros Hl Hi. unfold sc_pack, sc_pack_codes, pack_copy.
-  destruct (pack_refuses pos (pack_bytes incount t) outsize).
+  intros Hl Hi. unfold sc_pack, sc_pack_codes, pack_copy. cbv zeta.
+  destruct (negb (pack_size_code incount t =? SUCCESS)).
+  { split; [reflexivity|]. split; [reflexivity|]. split; discriminate. }
+  destruct (pack_refuses pos (pack_size_value incount t) outsize).
   - split; [reflexivity|]. split; [reflexivity|]. split; discriminate.
   - split; [reflexivity|]. split; [reflexivity|].
-    set (n := u64 (pack_bytes incount t)) in *. pose proof (u64_range (pack_bytes incount t)) as Hr. fold n in Hr.
+    set (n := u64 (pack_size_value incount t)) in *. pose proof (u64_range (pack_size_value incount t)) as Hr. fold n in Hr.
     unfold memcpy_at. replace ((0 <=? n) && (0 <=? 0) && (0 + n <=? len inbuf))%bool with true
       by (symmetry; rewrite !andb_true_iff; repeat split; apply Z.leb_le; lia).
     unfold put. rewrite len_take, len_drop. replace (Z.min (Z.max n 0) (Z.max 0 (len inbuf - Z.max 0 0))) with n by lia.
@@ -349,33 +383,54 @@ Proof.
     destruct (sc_pack_old inbuf 2 h_MPI_BYTE outbuf (2 ^ 31 - 1) (2 ^ 31 - 2)) as [[rc out'] pos'].
     assert (Hc : sc_pack_codes_old 2 h_MPI_BYTE (2 ^ 31 - 1) (2 ^ 31 - 2) = (SUCCESS, - 2 ^ 31, true)) by (vm_compute; reflexivity).
     rewrite Hc in H. destruct H as (H1 & H2 & H3). split; [assumption|]. split; [apply H3; reflexivity|assumption].
-  - unfold sc_pack. replace (pack_refuses (2 ^ 31 - 2) (pack_bytes 2 h_MPI_BYTE) (2 ^ 31 - 1)) with true by (vm_compute; reflexivity).
+  - unfold sc_pack. cbv zeta.
+    replace (pack_size_code 2 h_MPI_BYTE) with SUCCESS by (vm_compute; reflexivity).
+    replace (pack_size_value 2 h_MPI_BYTE) with 2 by (vm_compute; reflexivity).
+    replace (pack_refuses (2 ^ 31 - 2) 2 (2 ^ 31 - 1)) with true by (vm_compute; reflexivity).
     reflexivity.
 Qed.
 
-(* ---- F-C16d: the product `*size *= incount` of sc_MPI_Pack_size is an `int`.  EXACT domain of Pack / Unpack:
-   count * size < 2^31.  Outside it the statement of pack_spec is false of the code (repaired or not):
-   2^28 long doubles (4 GiB) "fit" into a buffer of 100 bytes: the product wraps to 0, the call is ACCEPTED, nothing is
-   packed and the position stays; MPI on one rank refuses. ---- *)
-Theorem pack_size_overflow_refuted :
-  let t := h_MPI_LONG_DOUBLE in let incount := 2 ^ 28 in let outsize := 100 in let pos := 0 in
-  valid_dt t /\ 0 <= incount < 2 ^ 31 /\ 0 <= pos <= outsize /\ outsize < 2 ^ 31 /\ contiguous_ok t incount 0 /\
-  outsize < pos + incount * type_size t /\ pack_bytes incount t = 0 /\
-  forall inbuf outbuf, len outbuf = outsize ->
-    sc_pack inbuf incount t outbuf outsize pos = (SUCCESS, Some outbuf, pos).
+(* ---- regression guard for F-C16d: Pack BEFORE that repair (sc_pack_nocheck: the `int` product of Pack_size unchecked).
+   (1) 2^28 long doubles (4 GiB) into a buffer of 100 bytes: the product wraps to 0, the call is ACCEPTED, nothing is packed,
+       the position stays.  (2) 2^27 long doubles (2 GiB) into INT_MAX bytes: the product wraps to INT_MIN, the space test
+       passes, memcpy with (size_t) INT_MIN leaves every buffer, the position becomes INT_MIN.
+   The repaired sc_pack refuses both calls (ERR_NO_SPACE from Pack_size) and changes nothing. ---- *)
+Theorem pack_size_overflow_old_refuted :
+  let t := h_MPI_LONG_DOUBLE in
+  valid_dt t /\ type_size t = 16 /\
+  (forall inbuf outbuf, len outbuf = 100 ->
+     sc_pack_nocheck inbuf (2 ^ 28) t outbuf 100 0 = (SUCCESS, Some outbuf, 0) /\
+     sc_pack inbuf (2 ^ 28) t outbuf 100 0 = (ERR_NO_SPACE, Some outbuf, 0)) /\
+  (forall inbuf outbuf, len outbuf = 2 ^ 31 - 1 -> len inbuf = 2 ^ 31 ->
+     sc_pack_nocheck inbuf (2 ^ 27) t outbuf (2 ^ 31 - 1) 0 = (SUCCESS, None, - 2 ^ 31) /\
+     sc_pack inbuf (2 ^ 27) t outbuf (2 ^ 31 - 1) 0 = (ERR_NO_SPACE, Some outbuf, 0)) /\
+  sc_pack_size (2 ^ 28) t = (ERR_NO_SPACE, Some 16) /\ sc_pack_size (2 ^ 27) t = (ERR_NO_SPACE, Some 16) /\
+  sc_pack_size (2 ^ 27 - 1) t = (SUCCESS, Some (2 ^ 31 - 16)).
 Proof.
-  cbv zeta. split; [eexists; vm_compute; reflexivity|].
-  split; [vm_compute; split; congruence|]. split; [lia|]. split; [vm_compute; reflexivity|].
-  split; [left; vm_compute; reflexivity|]. split; [vm_compute; reflexivity|]. split; [vm_compute; reflexivity|].
-  intros inbuf outbuf Hl. unfold sc_pack, pack_copy.
-  replace (pack_bytes (2 ^ 28) h_MPI_LONG_DOUBLE) with 0 by (vm_compute; reflexivity).
-  replace (pack_refuses 0 0 100) with false by (vm_compute; reflexivity).
-  change (u64 0) with 0. change (pack_advance 0 0) with 0.
-  unfold memcpy_at. cbn [Z.leb Z.compare andb Z.add]. 
-  replace (0 <=? len inbuf) with true by (symmetry; apply Z.leb_le; apply len_nonneg).
-  unfold drop, take. cbn [Z.to_nat skipn firstn]. unfold put. change (len []) with 0. cbn [Z.add Z.leb Z.compare andb].
-  replace (0 <=? len outbuf) with true by (symmetry; apply Z.leb_le; apply len_nonneg).
-  unfold take, drop. cbn [Z.to_nat skipn firstn app]. reflexivity.
+  cbv zeta. split; [eexists; vm_compute; reflexivity|]. split; [vm_compute; reflexivity|].
+  assert (Hnew : forall n inbuf outbuf lim, pack_size_code n h_MPI_LONG_DOUBLE = ERR_NO_SPACE ->
+            sc_pack inbuf n h_MPI_LONG_DOUBLE outbuf lim 0 = (ERR_NO_SPACE, Some outbuf, 0)).
+  { intros n inbuf outbuf lim H. unfold sc_pack. cbv zeta. rewrite H. reflexivity. }
+  split; [|split; [|vm_compute; repeat split]].
+  - intros inbuf outbuf Hl. split; [|apply Hnew; vm_compute; reflexivity].
+    unfold sc_pack_nocheck, pack_copy.
+    replace (pack_bytes (2 ^ 28) h_MPI_LONG_DOUBLE) with 0 by (vm_compute; reflexivity).
+    replace (pack_refuses 0 0 100) with false by (vm_compute; reflexivity).
+    change (u64 0) with 0. change (pack_advance 0 0) with 0.
+    unfold memcpy_at. cbn [Z.leb Z.compare andb Z.add].
+    replace (0 <=? len inbuf) with true by (symmetry; apply Z.leb_le; apply len_nonneg).
+    unfold drop, take. cbn [Z.to_nat skipn firstn]. unfold put. change (len []) with 0. cbn [Z.add Z.leb Z.compare andb].
+    replace (0 <=? len outbuf) with true by (symmetry; apply Z.leb_le; apply len_nonneg).
+    unfold take, drop. cbn [Z.to_nat skipn firstn app]. reflexivity.
+  - intros inbuf outbuf Hl Hi. split; [|apply Hnew; vm_compute; reflexivity].
+    unfold sc_pack_nocheck, pack_copy.
+    replace (pack_bytes (2 ^ 27) h_MPI_LONG_DOUBLE) with (- 2 ^ 31) by (vm_compute; reflexivity).
+    replace (pack_refuses 0 (- 2 ^ 31) (2 ^ 31 - 1)) with false by (vm_compute; reflexivity).
+    replace (pack_advance 0 (- 2 ^ 31)) with (- 2 ^ 31) by (vm_compute; reflexivity).
+    replace (u64 (- 2 ^ 31)) with 18446744071562067968 by (vm_compute; reflexivity).
+    unfold memcpy_at. rewrite Hi.
+    replace ((0 <=? 18446744071562067968) && (0 <=? 0) && (0 + 18446744071562067968 <=? 2 ^ 31))%bool with false by (vm_compute; reflexivity).
+    reflexivity.
 Qed.
 
 (* ---- completion calls ---- *)
@@ -394,11 +449,15 @@ Proof.
   rewrite (all_null_forall reqs H), Z.eqb_refl. auto.
 Qed.
 
-Theorem pack_size_spec incount t : valid_dt t -> 0 <= incount -> incount * type_size t < 2 ^ 31 ->
-  sc_pack_size incount t = (SUCCESS, Some (incount * type_size t)) /\ sc_type_size t = (SUCCESS, Some (type_size t)).
+(* Pack_size: the number of bytes when it is representable in an `int`, otherwise refusal (the element size stays in *size) *)
+Theorem pack_size_spec incount t : valid_dt t -> 0 <= incount < 2 ^ 31 ->
+  sc_pack_size incount t = (if incount * type_size t <? 2 ^ 31 then (SUCCESS, Some (incount * type_size t))
+                            else (ERR_NO_SPACE, Some (type_size t))) /\
+  sc_type_size t = (SUCCESS, Some (type_size t)).
 Proof.
-  intros Hv Hc Hs. split.
-  - unfold sc_pack_size. f_equal. f_equal. exact (pack_bytes_small incount t Hv Hc Hs).
+  intros Hv Hc. split.
+  - unfold sc_pack_size. destruct (pack_size_exact incount t Hv Hc) as (Hrep & Hnot).
+    destruct (Z.ltb_spec (incount * type_size t) (2 ^ 31)) as [H|H]; [destruct (Hrep H) as (-> & ->)|destruct (Hnot H) as (-> & ->)]; reflexivity.
   - unfold sc_type_size. f_equal. f_equal. rewrite sizeof_abi by assumption.
     pose proof (dt_bounds t Hv). apply s32_id. unfold in_s32, M32. lia.
 Qed.
